@@ -88,3 +88,4 @@ def run(ctx):
     dmlrules.index_key_suffix_rule(ctx, "K7.KEY-SUFFIX", dmlrules.KEY_SUFFIX_TOLERATED)
     dmlrules.undo_removes_new_keys(ctx, "K8.UNDO-REMOVES-NEW-KEYS")
     dmlrules.index_value_is_row_key(ctx, "K9.INDEX-VALUE")
+    dmlrules.undo_restores_entry(ctx, "K10.UNDO-RESTORES-ENTRY")
